@@ -16,15 +16,18 @@ type EdgeFact struct {
 // `if bad { raise() }; use` makes !bad a fact at use.
 type Guards struct {
 	In map[*ssa.BasicBlock]map[EdgeFact]bool
+	// Dead: the block ends in a raise (panic or a call of a no-return function); control never
+	// continues to its successors
+	Dead map[*ssa.BasicBlock]bool
 }
 
 // ComputeGuards runs the analysis. noReturn may be nil.
 func ComputeGuards(fn *ssa.Function, noReturn func(*ssa.Function) bool) *Guards {
-	g := &Guards{In: map[*ssa.BasicBlock]map[EdgeFact]bool{}}
+	dead := map[*ssa.BasicBlock]bool{} // block does not continue to its successors
+	g := &Guards{In: map[*ssa.BasicBlock]map[EdgeFact]bool{}, Dead: dead}
 	if len(fn.Blocks) == 0 {
 		return g
 	}
-	dead := map[*ssa.BasicBlock]bool{} // block does not continue to its successors
 	for _, b := range fn.Blocks {
 		for _, in := range b.Instrs {
 			switch x := in.(type) {
